@@ -26,6 +26,7 @@ def schedules(c):
     n = 60 if c.tier == "quick" else 1500
     scheds = gb.catalogue()
     scheds += gb.simulate(c, n, ["A", "B"], 2, 14, 16, False)
+    scheds += gb.simulate(c, n // 3, ["A", "B"], 2, 12, 16, False, remotes=("origin", "backup"))
     scheds += gb.uniform(c, n // 2, ["A", "B"]) + gb.uniform(c, n // 4, ["A", "B", "C"])
     return scheds
 
